@@ -434,4 +434,74 @@ theorem pickCtx_adds (context : GArg) (c : Option Key) : (pickCtx context c).add
   | view k => rfl
   | foreign k ts => rfl
 
+/-! ### which graphs an argument / an operation can change -/
+
+theorem adds_key {g : GArg} {q : Quad} (h : q ∈ g.adds) : g.key = some q.2 := by
+  cases g with
+  | none => simp [GArg.adds] at h
+  | ident k => simp [GArg.adds] at h
+  | view k => simp [GArg.adds] at h
+  | foreign k ts =>
+    simp only [GArg.adds, List.mem_map] at h
+    obtain ⟨t, _, rfl⟩ := h
+    rfl
+
+theorem adds_nil_of_key_none {g : GArg} (h : g.key = none) : g.adds = [] := by
+  cases g with
+  | none => rfl
+  | ident k => rfl
+  | view k => rfl
+  | foreign k ts => simp [GArg.key] at h
+
+theorem cgAddN_qs_other {cfg : Cfg} (qs : List (Triple × GArg)) :
+    ∀ (m : Mem) (t : Triple) (h : Key), h ∉ qs.filterMap (·.2.key) →
+      ((t, h) ∈ (cgAddN cfg m qs).1.qs ↔ (t, h) ∈ m.qs) := by
+  induction qs with
+  | nil => intro m t h _; rfl
+  | cons x r ih =>
+    intro m t h hh
+    obtain ⟨t0, g⟩ := x
+    simp only [cgAddN]
+    cases hk : g.key with
+    | none =>
+      simp only [mem_graphEff_qs, adds_nil_of_key_none hk, List.not_mem_nil, or_false]
+    | some k =>
+      simp only [List.filterMap_cons, hk, List.mem_cons, not_or] at hh
+      simp only
+      rw [ih _ t h hh.2]
+      simp only [Mem.add, mem_sinsert, mem_graphEff_qs, Prod.mk.injEq]
+      constructor
+      · rintro (⟨_, e⟩ | e | e)
+        · exact absurd e hh.1
+        · exact e
+        · have := adds_key e
+          rw [hk] at this
+          injection this with this
+          exact absurd this.symm hh.1
+      · intro e; exact Or.inr (Or.inl e)
+
+theorem selTriples_nil {pat : TPat} {k : Key} {qs : List Quad} (h : ∀ t, (t, k) ∉ qs) :
+    selTriples pat (some k) qs = [] := by
+  apply List.eq_nil_iff_forall_not_mem.mpr
+  intro t ht
+  obtain ⟨_, c, h1, h2⟩ := mem_selTriples.mp ht
+  rw [ctxOk_some.mp h2] at h1
+  exact h t h1
+
+theorem resolveCtx_some {cfg : Cfg} {k : Key} (h : ¬(cfg.du = true ∧ k = cfg.dflt)) :
+    resolveCtx cfg (some k) = some k := by
+  unfold resolveCtx
+  by_cases hdu : cfg.du = true
+  · have : ¬ (some k = some cfg.dflt) := fun e => h ⟨hdu, by injection e⟩
+    simp [hdu, this]
+  · simp [hdu]
+
+theorem resolveCtx_none (cfg : Cfg) :
+    resolveCtx cfg none = if cfg.du = true then none else some cfg.dflt := by
+  unfold resolveCtx
+  by_cases hdu : cfg.du = true <;> simp [hdu]
+
+theorem resolveCtx_dflt_du {cfg : Cfg} (h : cfg.du = true) : resolveCtx cfg (some cfg.dflt) = none := by
+  simp [resolveCtx, h]
+
 end RV.C02
